@@ -1,6 +1,7 @@
 package main
 
 import (
+	"strings"
 	"encoding/json"
 	"fmt"
 	"io"
@@ -28,6 +29,7 @@ type C14Case struct {
 	// trace is about ($traceNode); kids are listed in Targets too, so that the model computes their locations
 	Reported []string          `json:"reported,omitempty"`
 	Kids     map[string]string `json:"kids,omitempty"`
+	Nested   bool              `json:"nested,omitempty"` // the kids are reached by a nested constraint: sub-results are about them
 	Profile  string            `json:"profile"`
 	Data       string     `json:"data"`
 }
@@ -77,7 +79,11 @@ func genC14(g *G, n int, out io.Writer) {
 				c.Kids[nodeId(k)] = kid
 				c.Targets = append(c.Targets, kid)
 				nodes[k][NS+"kid"] = map[string]any{"@id": kid}
-				nodes = append(nodes, map[string]any{"@id": kid, "@type": []string{NS + "K"}, NS + "q": k})
+				kn := map[string]any{"@id": kid, "@type": []string{NS + "K"}, NS + "q": k}
+				if i%6 == 4 {
+					delete(kn, "@type") // a node without a class (reached through a link only)
+				}
+				nodes = append(nodes, kn)
 			}
 		}
 		withMaps := g.coin(0.85)
@@ -85,7 +91,7 @@ func genC14(g *G, n int, out io.Writer) {
 		// (lexical entries then still give line/column, with an empty uri unless an additional location lists the node)
 		rootMode := g.n(6) // 0: info node without rootLocation, 1: no info node, else: ordinary
 		if withMaps {
-			root := "file:///root.raml"
+			root := g.pick([]string{"file:///root.raml", "file:///root.raml", "file:///work/my project/api.raml", "file:///apis/bibliothèque/api.raml", "FILE:///Root.RAML", "file:///x.raml#", "C:\\apis\\orders.raml", "api.raml", ""})
 			if rootMode > 1 {
 				c.Root = &root
 			}
@@ -136,7 +142,7 @@ func genC14(g *G, n int, out io.Writer) {
 			}
 			var locLinks []any
 			for l := 0; l < nLoc; l++ {
-				loc := fmt.Sprintf("file:///lib%d.raml", l)
+				loc := fmt.Sprintf(g.pick([]string{"file:///lib%d.raml", "file:///libs/my lib %d.raml", "file:///libs/bibliothèque%d.raml", "HTTP://Example.org/lib%d.raml#"}), l)
 				var els []string
 				var elLinks []any
 				for _, id := range c.Targets {
@@ -167,7 +173,24 @@ func genC14(g *G, n int, out io.Writer) {
 		c.Data = string(b)
 		// every T node fails (ex.zz is absent) -> one result, one trace per target
 		c.Profile = "profile: C14\nprefixes:\n  ex: " + NS + "\nviolation:\n  - v\nvalidations:\n  v:\n    targetClass: ex.T\n    message: m\n    propertyConstraints:\n      ex.zz:\n        minCount: 1\n"
-		if traced {
+		if !traced {
+			// the failing constraint varies: every kind builds its trace entry in code of its own
+			switch g.n(6) {
+			case 1:
+				c.Profile = strings.Replace(c.Profile, "      ex.zz:\n        minCount: 1\n", "      ex.p0:\n        in: [zzz]\n", 1)
+			case 2:
+				c.Profile = strings.Replace(c.Profile, "      ex.zz:\n        minCount: 1\n", "      ex.p0:\n        pattern: ^zzz$\n", 1)
+			case 3:
+				c.Profile = strings.Replace(c.Profile, "      ex.zz:\n        minCount: 1\n", "      ex.p0:\n        maxLength: 0\n", 1)
+			case 4:
+				c.Profile = strings.Replace(c.Profile, "      ex.zz:\n        minCount: 1\n", "      ex.p0 | ex.p0:\n        uniqueValues: true\n", 1)
+			}
+		}
+		if traced && i%6 >= 3 {
+			// a nested constraint: the sub-results are about the linked nodes (which may have no class)
+			c.Profile = "profile: C14\nprefixes:\n  ex: " + NS + "\nviolation:\n  - v\nvalidations:\n  v:\n    targetClass: ex.T\n    message: m\n    propertyConstraints:\n      ex.kid:\n        nested:\n          propertyConstraints:\n            ex.zz:\n              minCount: 1\n"
+			c.Nested = true
+		} else if traced {
 			decl := "      - propertyConstraints:\n          ex.p0:\n            pattern: ^zzz$\n"
 			rego := "      - rego: |\n          kid := find with data.link as $node[\"" + NS + "kid\"]\n          $traceNode = kid\n          $result = false\n"
 			body := "    or:\n" + decl + rego
